@@ -86,9 +86,12 @@ def add_canaries(s, info):
         pat = r'^[ \t]*(?:pub(?:\([a-z]+\))? )?(?:const )?fn ' + re.escape(name) + r'\b'
         for mm in reversed(list(find_code(s, m, pat))):
             # only fns inside verus! blocks that carry a contract marker
-            bo = next_code_char(s, m, mm.end(), '{')
-            seg = s[mm.start():bo]
-            if 'ensures' in seg or 'requires' in seg:
+            mk = s.find('/*BODY*/', mm.end(), mm.end() + 20000)
+            nf = re.compile(r'^[ \t]*(?:pub(?:\([a-z]+\))? )?(?:const )?fn ', re.M).search(s, mm.end())
+            if mk < 0 or (nf and nf.start() < mk):
+                continue
+            bo = mk + len('/*BODY*/')
+            if s[bo] == '{':
                 s = s[:bo + 1] + '\n assert(false); // CANARY\n' + s[bo + 1:]
     return s
 
